@@ -102,6 +102,14 @@ Theorem C13_every_boundary_site_copies :
 Proof. split; [exact every_site_copies | exact sites_present]. Qed.
 Print Assumptions C13_every_boundary_site_copies.
 
+(* the switchable repairs of the model are set as the source has them: Close latches pending headers
+   under a test of the context, SetHeader tests the latch before joining, doneErr can return ctx.Err(),
+   the server's SendMsg leaves on a finished context before latching; Close assigns closeErr before
+   closing anything (facts regenerated from stream.go on every run) *)
+Theorem C13_model_repairs_match_source :
+  fx_now = wrap_fixes /\ wrap_close_err_first = true /\ wrap_order_problems = [].
+Proof. exact fixes_generated. Qed.
+
 (* the method table of the model is the one generated from testproto.TestApi_ServiceDesc *)
 Theorem C13_method_table_is_service_desc : method_table = wrap_methods.
 Proof. exact method_table_generated. Qed.
